@@ -54,6 +54,7 @@ type mp struct {
 	// bookkeeping of the first pass
 	claimOf map[string]string // pod key -> NodeClaim name created for it
 	deleted map[string]bool   // NodeClaim names made "deleting" by the harness
+	marked  map[string]bool   // provider ids the harness passed to Cluster.MarkForDeletion
 }
 
 func newMP(r *kit.Rand, w *sk.World, cfg sk.RunCfg) (*mp, error) {
@@ -65,7 +66,7 @@ func newMP(r *kit.Rand, w *sk.World, cfg sk.RunCfg) (*mp, error) {
 		mv = options.MinValuesPolicyBestEffort
 	}
 	cpu := int64(cfg.Workers) * 1000
-	m := &mp{w: w, r: r, cfg: cfg, claimOf: map[string]string{}, deleted: map[string]bool{}}
+	m := &mp{w: w, r: r, cfg: cfg, claimOf: map[string]string{}, deleted: map[string]bool{}, marked: map[string]bool{}}
 	m.ctx = options.ToContext(context.Background(), test.Options(test.OptionsFields{PreferencePolicy: &pp, MinValuesPolicy: &mv, CPURequests: &cpu}))
 	m.clk = clock.NewFakeClock(time.Unix(1_700_000_000, 0))
 	// NodeClaims are created with generateName; the API server would pick the suffix and the UID.  The PRNG does it
@@ -133,6 +134,7 @@ func newMP(r *kit.Rand, w *sk.World, cfg sk.RunCfg) (*mp, error) {
 			}
 			if n.Kind == "deleting" {
 				m.cluster.MarkForDeletion(node.Spec.ProviderID)
+				m.marked[node.Spec.ProviderID] = true
 			}
 		}
 	}
@@ -323,4 +325,101 @@ func sortedClaimNames(names []string) []string {
 	out := append([]string{}, names...)
 	sort.Strings(out)
 	return out
+}
+
+// ---------------------------------------------------------------- a second opinion that does not go through the live cluster state
+
+// freshView is a NEW state.Cluster hydrated from the current API content (NodeClaims, Nodes, then every pod event) and a
+// provisioner over it.  The real-CanAdd witnesses are built from it, so that they do not inherit whatever the live
+// cluster state has accumulated over the history of events.
+type freshView struct {
+	cluster *state.Cluster
+	prov    *provisioning.Provisioner
+}
+
+func (m *mp) fresh() (*freshView, error) {
+	cl := state.NewCluster(m.clk, m.cl, m.cp)
+	ncs := &v1.NodeClaimList{}
+	if err := m.cl.List(m.ctx, ncs); err != nil {
+		return nil, err
+	}
+	for i := range ncs.Items {
+		cl.UpdateNodeClaim(ncs.Items[i].DeepCopy())
+	}
+	nodes := &corev1.NodeList{}
+	if err := m.cl.List(m.ctx, nodes); err != nil {
+		return nil, err
+	}
+	for i := range nodes.Items {
+		if err := cl.UpdateNode(m.ctx, nodes.Items[i].DeepCopy()); err != nil {
+			return nil, err
+		}
+	}
+	pods := &corev1.PodList{}
+	if err := m.cl.List(m.ctx, pods); err != nil {
+		return nil, err
+	}
+	for i := range pods.Items {
+		if err := cl.UpdatePod(m.ctx, pods.Items[i].DeepCopy()); err != nil {
+			return nil, err
+		}
+	}
+	for id := range m.marked {
+		cl.MarkForDeletion(id)
+	}
+	rec := events.NewRecorder(&record.FakeRecorder{})
+	return &freshView{cluster: cl, prov: provisioning.NewProvisioner(m.cl, rec, m.cp, cl, m.clk, deviceallocation.NewController(m.cl), virtualpods.NewVirtualPodCache(m.cl))}, nil
+}
+
+// probe builds a scheduler over the fresh cluster for the same batch Provisioner.Schedule would work on.
+func (f *freshView) probe(m *mp) (*psched.Scheduler, state.StateNodes, error) {
+	nodes := f.cluster.DeepCopyNodes()
+	pending, err := f.prov.GetPendingPods(m.ctx)
+	if err != nil {
+		return nil, nil, err
+	}
+	del, err := nodes.Deleting().CurrentlyReschedulablePods(m.ctx, m.cl, m.clk, events.NewRecorder(&record.FakeRecorder{}))
+	if err != nil {
+		return nil, nil, err
+	}
+	pods := append(pending, del...)
+	if len(pods) == 0 {
+		return nil, nodes, nil
+	}
+	uids := sets.New(lo.Map(del, func(p *corev1.Pod, _ int) types.UID { return p.UID })...)
+	s, err := f.prov.NewScheduler(m.ctx, pods, nodes.Active(), uids, m.schedOpts()...)
+	return s, nodes, err
+}
+
+// ---------------------------------------------------------------- pod and node events (the informers, one event at a time)
+
+// podEvent delivers the pod's current API state to the live cluster state.
+func (m *mp) podEvent(ns, name string) {
+	p := &corev1.Pod{}
+	if err := m.cl.Get(m.ctx, client.ObjectKey{Namespace: ns, Name: name}, p); err != nil {
+		m.cluster.DeletePod(client.ObjectKey{Namespace: ns, Name: name})
+		return
+	}
+	if err := m.cluster.UpdatePod(m.ctx, p); err != nil {
+		panic(err)
+	}
+}
+
+// nodeEvent delivers a Node event that changes nothing relevant (heartbeat / resync): an annotation is bumped.
+func (m *mp) nodeEvent(name, namespace string) {
+	n := &corev1.Node{}
+	if err := m.cl.Get(m.ctx, client.ObjectKey{Name: name, Namespace: namespace}, n); err != nil {
+		return
+	}
+	stored := n.DeepCopy()
+	if n.Annotations == nil {
+		n.Annotations = map[string]string{}
+	}
+	n.Annotations["example.com/heartbeat"] = fmt.Sprint(m.clk.Now().Unix(), "-", m.r.Intn(1000))
+	if err := m.cl.Patch(m.ctx, n, client.MergeFrom(stored)); err != nil {
+		panic(err)
+	}
+	if err := m.cluster.UpdateNode(m.ctx, n); err != nil {
+		panic(err)
+	}
 }
